@@ -298,8 +298,9 @@ Proof.
 Qed.
 
 (* ---- (e) COMPLETENESS OF THE WALK ---------------------------------------------------------------- *)
-(* t occurs in the argument, outside NoHash wrappers and opaque objects: the syntactic reading of
-   "a task underneath a derived object" *)
+(* t occurs in the argument, outside NoHash wrappers and outside objects neither value() nor the walk looks
+   into; for an opaque object the walk does look into (instances of container subclasses) the tasks are the
+   [declared] ones: the syntactic reading of "a task underneath a derived object" *)
 Inductive occurs (t : tid) : arg -> Prop :=
 | occ_task : occurs t (ATask t)
 | occ_list xs x : In x xs -> occurs t x -> occurs t (AList xs)
@@ -310,7 +311,8 @@ Inductive occurs (t : tid) : arg -> Prop :=
 | occ_fun b f : occurs t b -> occurs t (AFun b f)
 | occ_mapseq bl bs len : In t bl -> occurs t (AMapSeq bl bs len)
 | occ_mapslice bl bs len r : In t bl -> occurs t (AMapSlice bl bs len r)
-| occ_custom x : occurs t x -> occurs t (ACustom x).
+| occ_custom x : occurs t x -> occurs t (ACustom x)
+| occ_opaque ts v : In t ts -> occurs t (AOpaque ts v).
 
 Theorem occurs_impl_deps t a : occurs t a <-> In t (impl_deps a).
 Proof.
@@ -322,6 +324,7 @@ Proof.
     + apply in_flat_map. exists (k, x). auto.
     + apply in_or_app. left. assumption.
     + apply in_or_app. right. assumption.
+    + assumption.
     + assumption.
     + assumption.
     + assumption.
@@ -340,6 +343,7 @@ Proof.
     + apply occ_mapseq. exact H.
     + apply occ_mapslice. exact H.
     + apply occ_custom. auto.
+    + apply occ_opaque. exact H.
 Qed.
 
 (* ---- tasks: inputs and invocation ---------------------------------------------------------------- *)
@@ -763,4 +767,21 @@ Proof.
   intros Hin Hocc. apply task_occurs_deps in Hocc.
   eapply Dag.dep_step; [|apply Dag.dep_refl].
   exists (dag_node name t). repeat split; assumption.
+Qed.
+
+(* ---- opaque objects whose inner tasks are declared (instances of list / tuple / dict subclasses) ---------- *)
+(* handed over as it is, whatever the store holds ... *)
+Theorem resolve_opaque st ts v : resolve st (AOpaque ts v) = Ok v.
+Proof. reflexivity. Qed.
+
+(* ... yet its consumer waits for the declared inner tasks (they are among its dependencies) ... *)
+Theorem opaque_declared_waits t ts v u : In (AOpaque ts v) (t_args t) -> In u ts -> In u (task_deps t).
+Proof. intros Ha Hu. apply (task_deps_arg t _ Ha). exact Hu. Qed.
+
+(* ... and depends on them in the task graph (hence is invalidated with them, C09) *)
+Theorem opaque_declared_depends (d : Dag.dag) name t ts v u :
+  In (dag_node name t) d -> In (AOpaque ts v) (t_args t) -> In u ts -> Dag.depends_on d (t_id t) u.
+Proof.
+  intros Hin Ha Hu. apply (consumer_depends_on_underlying d name t u Hin).
+  left. exists (AOpaque ts v). split; [exact Ha | apply occ_opaque; exact Hu].
 Qed.
